@@ -139,7 +139,21 @@ func checkC11(c *Ctx, k C11Case) *Verdict {
 		switch op.Op {
 		case "gen":
 			env := b.ctx.goEnv(fmt.Sprintf("GOMAXPROCS=%d", op.Procs))
-			r := pipe.Run(pipe.Cmd{Dir: b.L.AppDir, Env: env, Args: append([]string{c.Snap.CLI}, files...), Timeout: 2 * time.Minute})
+			args := files
+			if op.Arg%4 == 3 {
+				// `kessoku *.go`: every Go file of the directory, earlier outputs included
+				args = nil
+				ents, _ := os.ReadDir(b.L.AppDir)
+				for _, e := range ents {
+					if strings.HasSuffix(e.Name(), ".go") && !strings.HasSuffix(e.Name(), "_test.go") && e.Name() != "hidden_helpers.go" {
+						if src, err := os.ReadFile(filepath.Join(b.L.AppDir, e.Name())); err == nil && len(src) > 0 && !strings.HasPrefix(string(src), "this is not go") {
+							args = append(args, e.Name())
+						}
+					}
+				}
+				v.Features["invoke:all-go-files"] = true
+			}
+			r := pipe.Run(pipe.Cmd{Dir: b.L.AppDir, Env: env, Args: append([]string{c.Snap.CLI}, args...), Timeout: 2 * time.Minute})
 			v.Evals++
 			gens++
 			procsSeen[op.Procs] = true
